@@ -1033,10 +1033,8 @@ func (st *State) closeTo(leq bool, a, b, rel, abs *Term) *Term {
 	if leq {
 		exact = st.fcmp(token.LEQ, a, b)
 	}
-	if st.h.mode == ModeR || st.h.mode == ModeORD {
-		return exact
-	}
 	if a.isConst() && b.isConst() && a.sort == SF64 && b.sort == SF64 {
+		// two concrete float64 values: the tolerance test itself, evaluated natively
 		if exact.isTrue() {
 			return exact
 		}
@@ -1045,6 +1043,9 @@ func (st *State) closeTo(leq bool, a, b, rel, abs *Term) *Term {
 		}
 		d := math.Abs(a.f - b.f)
 		return ts.Bool(d <= abs.f || d <= rel.f*math.Max(math.Abs(a.f), math.Abs(b.f)))
+	}
+	if st.h.mode == ModeR || st.h.mode == ModeORD {
+		return exact
 	}
 	if st.h.mode == ModeRR {
 		ra, rb := st.toReal(a), st.toReal(b)
